@@ -46,7 +46,11 @@ Docs ==
    d6 |-> << D("JSIGHT", <<"0.3">>, FALSE, "", ""),
              D("MACRO", <<"@m1">>, TRUE, "", ""), D("URL", <<"pa">>, FALSE, "", ""), D("GET", <<>>, FALSE, "", ""), D("RESP", <<"any">>, FALSE, "", "200"),
              D("GET", <<"pb">>, FALSE, "", ""), D("RESP", <<"any">>, FALSE, "", "200"), CloseTok,
-             D("PASTE", <<"@m1">>, FALSE, "", "") >>]
+             D("PASTE", <<"@m1">>, FALSE, "", "") >>,
+   \* two resources of identical layout whose Description texts differ: cut into two files, the texts lie at the same byte offsets
+   d7 |-> << D("JSIGHT", <<"0.3">>, FALSE, "", ""),
+             D("GET", <<"pa">>, FALSE, "", ""), D("Description", <<>>, FALSE, "d1", ""), D("RESP", <<"any">>, FALSE, "", "200"),
+             D("GET", <<"pb">>, FALSE, "", ""), D("Description", <<>>, FALSE, "d2", ""), D("RESP", <<"any">>, FALSE, "", "200") >>]
              \* a method with its Path child, written identically under two resources: legal reuse of one piece
 
 FileNames == <<"a.jst", "b.jst", "c.jst">>
